@@ -439,6 +439,12 @@ def apply_event(W, m, ev):
         W.cap[SERVERS[j]] = newcap
         b.nodes['/servers/' + SERVERS[j]][0] = data
         _post(W, m, 'servers', [SERVERS[j]])
+    elif kind == 'server_relabel':    # the server moves to another partition
+        j = ev[1]
+        data = dict(b.get('/servers/' + SERVERS[j]))
+        data['partition'] = ev[2]
+        b.nodes['/servers/' + SERVERS[j]][0] = data
+        _post(W, m, 'servers', [SERVERS[j]])
     elif kind == 'identity_groups':
         g, count = ev[1], ev[2]
         if count is None:
